@@ -19,6 +19,7 @@ EXPLANATION = (
     " (R8) cyclic model: the repetition cap and the product bound are checked against the premises that justify a flow-valued cap (exact flow row, weights >= 1) - all three fail for kLeastAbsErrorsCycles and are reported as known findings (modelling limitation); the error variables of the given-weights model are bounded by at least sum(given weights); a non-integral superset is rejected for integer weights; filters decide emptiness on the internal route (C01.R5). "
     "constraints or to their shared defaults, so the set of ignored (zero-scaled) edges is exactly what this call's arguments say.  NOT decided: optimality; sufficiency of w_max = k*max f as a bound for every optimum."
     ' (R8, round 3) data multiplying solver variables are float()-converted; error variables are integer (and errors rounded) only when the flow values are integral too; the error bound of the cyclic model covers k products; w_max is not truncated; validity check on Python numbers.'
+    ' (R8, hunt 4) constraint edges are trusted under length coverage only with positive length; the superset sum of the error bound is taken on Python numbers.'
 )
 DECIDED = ["two-sided error rows and scaled objective present and complete", "reported objective recomputed with the same scaling as the model's objective",
            "product linking exact", "numeric type and weight bound provider"]
